@@ -285,6 +285,31 @@ func CheckC11(run *Run) {
 			}
 		}
 	}
+	// large bodies around plausible size limits (1, 4, 8 MiB): a complete document followed by garbage
+	// must be rejected; a large valid document must be dispatched intact
+	for _, t := range targets {
+		if t.req.ID != "ftplain" || t.md.Name != "EchoPlain" {
+			continue
+		}
+		for _, lim := range []int{1 << 20, 4 << 20, 8 << 20} {
+			head := []byte(`{"id":"a"}`)
+			pad := bytes.Repeat([]byte(" "), lim-len(head))
+			cases = append(cases, &c11Case{t: t, ct: 0, body: append(append(append([]byte{}, head...), pad...), []byte("garbage")...), family: "large-body"})
+			big := []byte(`{"id":"` + strings.Repeat("x", lim+17) + `"}`)
+			cases = append(cases, &c11Case{t: t, ct: 0, body: big, family: "large-body"})
+			// binary: field 1 ("id") then an unknown length-delimited field filling up to the limit, then a dangling tag
+			w := []byte{0x0a, 0x01, 'a'}
+			fill := lim - len(w) - 6
+			w = append(w, 0xc2, 0x3e) // field 1000, wire type 2
+			w = appendVarint(w, uint64(fill))
+			w = append(w, bytes.Repeat([]byte{0}, fill)...)
+			for len(w) < lim {
+				w = append(w, 0xc0, 0x3e, 0x00) // field 1000 varint 0
+			}
+			w = w[:lim]
+			cases = append(cases, &c11Case{t: t, ct: 1, body: append(append([]byte{}, w...), 0xff), family: "large-body"})
+		}
+	}
 	scen := make([]any, len(cases))
 	for i, c := range cases {
 		sc := map[string]any{"id": fmt.Sprint(i), "kind": "raw", "pkg": c.t.req.ID, "service": c.t.svc.Name, "verb": "POST", "target": c.t.target,
@@ -510,6 +535,9 @@ func c11Clients(run *Run, s *Session, reqs []*Request, rng *rand.Rand) {
 			res, holds, note = "nothing", false, "client returned neither a response nor an error"
 		case o.Client.Resp != nil:
 			res = "response"
+			if c.status >= 400 {
+				holds, note = false, fmt.Sprintf("the client returned a response value (no error) for HTTP status %d", c.status)
+			}
 		case o.Client.ErrType == "ValidationError" || o.Client.ErrType == "Error":
 			res = o.Client.ErrType
 		case strings.Contains(o.Client.ErrMsg, "failed to unmarshal response"):
@@ -546,4 +574,12 @@ func c11Clients(run *Run, s *Session, reqs []*Request, rng *rand.Rand) {
 		cr.Apply(vs[i])
 		run.Results = append(run.Results, cr)
 	}
+}
+
+func appendVarint(b []byte, v uint64) []byte {
+	for v >= 0x80 {
+		b = append(b, byte(v)|0x80)
+		v >>= 7
+	}
+	return append(b, byte(v))
 }
